@@ -56,7 +56,8 @@ type runner struct {
 	sc     scenario
 	pos    int
 	t      *trace.T
-	ctx    context.Context
+	ctx    context.Context // the context the top-level scope is run with (plain, or a seata context the caller made)
+	base   context.Context // the plain cancellable context underneath: what "fresh" child contexts are derived from
 	cancel context.CancelFunc
 	xids   map[string]int
 	nxid   int
@@ -67,6 +68,9 @@ type runner struct {
 	lastOutcome string
 	lastP2      string
 	sent        int
+	// again: a second top-level scope run on the same caller-made context after this scenario's tree has
+	// returned (its own trace: every top-level scope is a behaviour from Init, whatever the context saw before)
+	again *runner
 }
 
 var (
@@ -205,7 +209,7 @@ func (r *runner) childCtx(parent context.Context, kind string, variant int, run 
 			callCtx = metadata.AppendToOutgoingContext(parent, constant.XidKey, "10.9.9.9:8091:777")
 		}
 		_ = sgrpc.ClientTransactionInterceptor(callCtx, "/svc/m", nil, nil, nil, invoker)
-		in := metadata.NewIncomingContext(r.ctx, outMD)
+		in := metadata.NewIncomingContext(r.base, outMD)
 		_, _ = sgrpc.ServerTransactionInterceptor(in, nil, &grpc.UnaryServerInfo{FullMethod: "/svc/m"}, func(ctx context.Context, req interface{}) (interface{}, error) {
 			run(ctx)
 			return nil, nil
@@ -217,7 +221,9 @@ func (r *runner) childCtx(parent context.Context, kind string, variant int, run 
 		}
 		gin.SetMode(gin.ReleaseMode)
 		e := gin.New()
-		e.ContextWithFallback = true
+		// gin's default is false (a *gin.Context then answers Value() from its own keys only); the middleware's note
+		// recommends true: the handler below takes the request's context, which must carry the xid either way
+		e.ContextWithFallback = variant%32 >= 16
 		e.Use(sgin.TransactionMiddleware())
 		ran := false
 		e.GET("/x", func(c *gin.Context) {
@@ -227,7 +233,7 @@ func (r *runner) childCtx(parent context.Context, kind string, variant int, run 
 			defer cancel()
 			go func() {
 				select {
-				case <-r.ctx.Done():
+				case <-r.base.Done():
 					cancel()
 				case <-ctx.Done():
 				}
@@ -286,12 +292,12 @@ func (r *runner) childCtx(parent context.Context, kind string, variant int, run 
 			}
 		}
 		inv2 := invocation.NewRPCInvocation("m", nil, carried)
-		f.Invoke(r.ctx, &stubInvoker{fn: func(ctx context.Context, inv protocol.Invocation) { run(ctx) }}, inv2)
+		f.Invoke(r.base, &stubInvoker{fn: func(ctx context.Context, inv protocol.Invocation) { run(ctx) }}, inv2)
 		return "fresh-dubbo"
 	}
-	ctx := r.ctx
+	ctx := r.base
 	if xid != "" {
-		ctx = tm.InitSeataContext(r.ctx)
+		ctx = tm.InitSeataContext(r.base)
 		tm.SetXID(ctx, xid)
 	}
 	run(ctx)
@@ -325,7 +331,13 @@ func (r *runner) scope(parent context.Context, st step, depth int) {
 	r.consumeCancels()
 	ran := false
 	r.lastOutcome, r.lastP2, r.sent = "notrun", "none", 0
-	r.childCtx(parent, st.Kind, variant, func(ctx context.Context) {
+	kind := st.Kind
+	if depth == 1 && tm.IsSeataContext(r.ctx) {
+		// the caller made the seata context itself and keeps it: its top-level scopes run on that very context
+		// (otherwise a "fresh" top-level scope arrives through one of the integrations without an xid)
+		kind = "shared"
+	}
+	r.childCtx(parent, kind, variant, func(ctx context.Context) {
 		ran = true
 		v := func() (v string) {
 			defer func() {
@@ -427,10 +439,30 @@ func main() {
 		}
 		ctx, cancel := context.WithCancel(context.Background())
 		cls := classOf(sc)
-		r := &runner{i: i, sc: sc, ctx: ctx, cancel: cancel, xids: map[string]int{}, seed: o.Seed, coord: coord}
+		cancels := false
+		for _, st := range sc.Steps {
+			if st.Op == "cancel" {
+				cancels = true
+			}
+		}
+		base := ctx
+		if i%2 == 1 {
+			// the caller made the seata context itself (a worker that keeps one context for its whole life)
+			ctx = tm.InitSeataContext(ctx)
+		}
+		r := &runner{i: i, sc: sc, ctx: ctx, base: base, cancel: cancel, xids: map[string]int{}, seed: o.Seed, coord: coord}
 		r.t = w.Begin(map[string]interface{}{"i": i, "sc": sc}, cls)
 		r.t.Add("Start", "retryc", sc.RetryC, "retryr", sc.RetryR, "sig", "start")
 		byName[fmt.Sprintf("sc%d", i)] = r
+		if i%2 == 1 && !cancels {
+			// ... and runs the next transaction on it: Required, business returns nil, the coordinator agrees
+			sc2 := scenario{Steps: []step{{Op: "enter", Mode: "Required", Kind: "shared"}, {Op: "leave", O: "nil"}}, RetryC: sc.RetryC, RetryR: sc.RetryR}
+			r2 := &runner{i: 1_000_000 + i, sc: sc2, ctx: ctx, base: base, cancel: func() {}, xids: map[string]int{}, seed: o.Seed, coord: coord}
+			r2.t = w.Begin(map[string]interface{}{"i": i, "sc": sc2, "again": true}, "again")
+			r2.t.Add("Start", "retryc", sc.RetryC, "retryr", sc.RetryR, "sig", "start")
+			byName[fmt.Sprintf("sc%d", r2.i)] = r2
+			r.again = r2
+		}
 		key := [2]int{sc.RetryC, sc.RetryR}
 		if _, ok := byRetry[key]; !ok {
 			order = append(order, key)
@@ -452,6 +484,9 @@ func main() {
 				go func() {
 					defer close(done)
 					r.run()
+					if r.again != nil {
+						r.again.run()
+					}
 				}()
 				select {
 				case <-done:
@@ -464,6 +499,9 @@ func main() {
 		wg.Wait()
 		for _, r := range rs {
 			r.t.Close()
+			if r.again != nil {
+				r.again.t.Close()
+			}
 		}
 	}
 	if err := w.Close(); err != nil {
